@@ -38,6 +38,7 @@ ASSUMPTIONS = [
     'recipients of one envelope are pairwise distinct (the per-recipient result table is a dict keyed by address)',
     'replies are paired with commands in order (that is property C10); the scripted server answers command k with the outcome of its stage',
     'after a dropped connection or a stall the scripted server stays dead/silent for the rest of the connection',
+    'a reply line whose code is not [1-5]dd is a BadReply (slimta.smtp.io reply_line_pattern): the outcome "bad code" is a malformed reply',
     'SMTP AUTH is explored with the single-step PLAIN mechanism only (pysasl challenge flows are outside the model)',
     'a TLS handshake (context.wrap_socket) succeeds and does not stall; handshake failures/stalls belong to C08/C14',
     'pipe relays: the delivery program exists and can be started (a Popen OSError is a configuration error, not a downstream behaviour)',
@@ -493,7 +494,7 @@ def strip_other(res):
 
 
 # ----------------------------------------------------------------- property oracle (SMTP / LMTP)
-ABORTING = (MALFORMED, DISCONNECT, STALL)
+ABORTING = (MALFORMED, BADCODE, DISCONNECT, STALL)
 
 
 def oracle_smtp(ctx, case, impl):
@@ -528,13 +529,10 @@ def oracle_smtp(ctx, case, impl):
                     key = 'c11:stall-at-end-of-data-pipelined'
                 what = 'the attempt for message %d never completes (result never set): %r' % (m, impl.get('raised'))
             elif f.startswith('other'):
-                if has_badcode:
-                    key = 'c11:bad-reply-code-valueerror'
-                elif bad_addr:
-                    key = 'c11:non-ascii-address-unicodeerror'
-                else:
-                    key = 'c11:smtp-foreign-exception'
-                what = 'message %d ends with %s instead of a relay error' % (m, f)
+                key = 'c11:smtp-foreign-exception'
+                what = 'message %d ends with %s instead of a relay error%s' % (
+                    m, f, ' (address that cannot be encoded for this server)' if bad_addr else
+                    ' (reply code outside [1-5]dd)' if has_badcode else '')
             elif f in ('perm', 'trans'):
                 # classification of a rejected recipient when everything else went well
                 ro = out(K_RCPT, m, i)
@@ -558,12 +556,18 @@ def oracle_smtp(ctx, case, impl):
                 want = None
                 if o in (R5, R500):
                     want = 'perm'
-                elif o in (R4, MALFORMED, DISCONNECT, STALL):
+                elif o in (R4, MALFORMED, BADCODE, DISCONNECT, STALL):
                     want = 'trans'
                 if want and any(f != want for f in finals):
                     _fail(ctx, 'c11:smtp-misclassified', dict(kind='smtp', case=case),
                              'single fault %s=%s: expected every recipient %s, got %r' % (k, ONAMES[o], want, finals))
                     return
+        # an address that cannot be encoded for this server: permanent for the message (d29)
+        if bad_addr and not script and case.get('conn', 'ok') == 'ok' and not msg.get('eightbit') and m == 0:
+            if any(f != 'perm' for f in finals):
+                _fail(ctx, 'c11:unencodable-address-not-permanent', dict(kind='smtp', case=case),
+                      'sender/recipient cannot be encoded for the next hop: expected every recipient perm, got %r' % (finals,))
+                return
     if case.get('conn', 'ok') in ('refused', 'timeout'):
         f = per_rcpt(impl['results'][0], len(case['msgs'][0]['rcpt_ok']))
         if any(x != 'trans' for x in f):
